@@ -85,7 +85,7 @@ def run(chk):
     chk.explanation = EXPLANATION
     chk.info.update(P.stats())
     chk.rule("C13.O1", "every (species set, include/exclude) filter keeps exactly the entries of the hand-edited file, in order, in all four views", 30)
-    chk.rule("C13.O3", "every species-keyed view of ConfigParser is overridden by the filter; builders reach the parser only through views", 5)
+    chk.rule("C13.O3", "every species-keyed view of ConfigParser is overridden by the filter; builders reach the parser only through views", 3)
     chk.rule("C13.O4", "a view is unaffected by creating and reading other views of the same parsed file", 6)
     chk.rule("C13.O5", "CLI: --include-species -> include=, --exclude-species -> exclude=, presence decided by 'is None' (an empty set is honoured)", 8)
     stats = {"cases": 0}
@@ -94,6 +94,9 @@ def run(chk):
     chk.attempt("O4", lambda: isolation(chk, P))
     chk.attempt("O4b", lambda: builder_isolation(chk, P))
     chk.attempt("O5", lambda: cli(chk, P))
+    chk.rule("C13.O6", "end to end: builders on the filtered file = builders on the hand-edited file (every species set, both modes, "
+                       "standard and Finnis-Sinclair keys)", 30)
+    chk.attempt("O6", lambda: end_to_end(chk, P, stats))
     chk.states = stats["cases"]
     chk.exhaustive = True
     chk.assume("byte equality of the final table with that of the hand-edited file additionally needs C01-C05 and the builders' order preservation (C12)")
@@ -135,15 +138,15 @@ def exhaustive(chk, P):
     # species-keyed views: properties of ConfigParser that return parsed parameter sections
     keyed = []
     for name, fi in cp.methods.items():
-        if not fi.is_property:
+        if name.startswith("_") or name in ("parse_pair_like",):
             continue
         calls = [n.func.attr for n in ast.walk(fi.node) if isinstance(n, ast.Call) and isinstance(n.func, ast.Attribute)]
         if "_parse_params_section" in calls or "parse_pair_like" in calls:
             keyed.append(name)
-    if sorted(keyed) != ["eam_density", "eam_density_fs", "eam_embed", "pair"]:
-        chk.error("species-keyed views of ConfigParser changed: %s (update the oracle after reading them)" % sorted(keyed))
+    if len(keyed) < 2:
+        chk.error("species-keyed views of ConfigParser are not recognised: %s" % sorted(keyed))
     for name in sorted(keyed):
-        ov = name in fcp.methods and fcp.methods[name].is_property
+        ov = name in fcp.methods and fcp.methods[name].is_property == cp.methods[name].is_property
         chk.ob("C13.O3", "view %r is overridden by FilteredConfigParser" % name, ov, site=fcp.module.relpath + " FilteredConfigParser",
                found=sorted(fcp.methods), expect=name, key="C13.O3|override|%s" % name)
     # builders do not bypass the views
@@ -278,6 +281,102 @@ def builder_isolation(chk, P):
                              "built alone" % (bname, i + 1, specs[i][0], specs[i][1]), got == alone[i], site=site,
                    found=[g[0] for g in got] if got != alone[i] else None, expect=[g[0] for g in alone[i]],
                    key="C13.O4|builders|%s|v%d" % (bname, i + 1))
+
+
+def _file_text(keep_entry):
+    """a model file over LABELS: every unordered pair, every embedding, every density (standard keys and A->B keys are two
+    files); each entry's definition is 'as.constant <its own number>' so that it can be recognised in the built model"""
+    n = [0]
+
+    def num():
+        n[0] += 1
+        return n[0]
+    pairs = list(itertools.combinations_with_replacement(LABELS, 2))
+    out = {}
+    for fs in (False, True):
+        lines = ["[Pair]"]
+        for a, b in pairs:
+            k = num()
+            if keep_entry((a, b)):
+                lines.append("%s-%s : as.constant %d" % (a, b, k))
+        lines.append("[EAM-Embed]")
+        for a in LABELS:
+            k = num()
+            if keep_entry((a,)):
+                lines.append("%s : as.constant %d" % (a, k))
+        lines.append("[EAM-Density]")
+        if fs:
+            for a, b in itertools.product(LABELS, repeat=2):
+                k = num()
+                if keep_entry((a, b)):
+                    lines.append("%s->%s : as.constant %d" % (a, b, k))
+        else:
+            for a in LABELS:
+                k = num()
+                if keep_entry((a,)):
+                    lines.append("%s : as.constant %d" % (a, k))
+        out[fs] = "\n".join(lines) + "\n"
+        n[0] = 0 if not fs else n[0]
+    return out
+
+
+def _built_models(P, text, fs, filt=None):
+    """the pair potentials and EAM potentials the package's builders make from the file `text`, read through
+    FilteredConfigParser(**filt) when filt is given -> comparable summary (species and the definitions bound to them)"""
+    from .. import eamrules as E
+    from .c14 import parse
+    out = parse(P, text)
+    if out[0] != "ok":
+        return ("refused", repr(out[1]))
+    I, cp = out[3], out[4]
+    view = cp
+    if filt is not None:
+        view = I.instantiate(P.cls(FCP, "FilteredConfigParser"), [cp], dict((k, ListV([Const(x) for x in v], "list")) for k, v in filt.items()), None)
+    st = I.__dict__.setdefault("class_standins", {})
+    pfb = P.cls("atsim.potentials.config._potential_form_builder", "Potential_Form_Builder")
+    st[pfb.fq] = lambda J, ci, args, kwargs: PyObjV(E.FormBuilder())
+    regs = [Opaque(("collaborator", "forms")), Opaque(("collaborator", "modifiers"))]
+    res = {}
+    try:
+        pb = I.instantiate(P.cls("atsim.potentials.config._pair_potential_builder", "Pair_Potential_Builder"), [view] + regs, {}, None)
+        pots = I.as_iterable(I.getattr(pb, "potentials"))
+        res["pair"] = [(I.getattr(p_, "speciesA").v, I.getattr(p_, "speciesB").v, repr(I.getattr(p_, "potentialFunction").key())) for p_ in pots.items]
+    except RaiseSignal as e:
+        res["pair"] = "raises %r" % (e.exc,)
+    try:
+        b = I.instantiate(P.cls(E.BUILDER_MOD, "EAM_Potential_Builder_FS" if fs else "EAM_Potential_Builder"), [view] + regs,
+                          {"reference_data": PyObjV(E.RefData(P))}, None)
+        eam = []
+        for p_ in I.as_iterable(I.getattr(b, "eam_potentials")).items:
+            d = I.getattr(p_, "electronDensityFunction")
+            dk = sorted((k.v, repr(v.key())) for k, v in d.items.values()) if isinstance(d, DictV) else repr(d.key())
+            eam.append((I.getattr(p_, "species").v, repr(I.getattr(p_, "embeddingFunction").key()), dk))
+        res["eam"] = eam
+    except RaiseSignal as e:
+        res["eam"] = "raises %r" % (e.exc,)
+    return res
+
+
+def end_to_end(chk, P, stats):
+    """the property as stated: the models the package's builders make from the file read through the filter = the models
+    they make from the hand-edited file (entries mentioning unwanted species deleted), for every species set and both
+    modes, standard and Finnis-Sinclair density keys"""
+    site = P.cls(FCP, "FilteredConfigParser").site()
+    full = _file_text(lambda key: True)
+    for exclude in (False, True):
+        mode = "exclude" if exclude else "include"
+        for S in subsets():
+            edited = _file_text(lambda key: keep(key, S, exclude))
+            for fs in (False, True):
+                got = _built_models(P, full[fs], fs, {mode: S})
+                want = _built_models(P, edited[fs], fs)
+                stats["cases"] += 1
+                bad = [k for k in ("pair", "eam") if not isinstance(got, dict) or not isinstance(want, dict) or got.get(k) != want.get(k)]
+                chk.ob("C13.O6", "%s=%s, %s density keys: pair and EAM models built through the filter equal those built from the "
+                                 "hand-edited file" % (mode, S, "A->B" if fs else "standard"), not bad, site=site,
+                       found=dict((k, got.get(k) if isinstance(got, dict) else got) for k in bad) or None,
+                       expect=dict((k, want.get(k) if isinstance(want, dict) else want) for k in bad) or "equal models",
+                       key="C13.O6|%s|%s|%s" % (mode, ",".join(S), "fs" if fs else "std"))
 
 
 def cli(chk, P):
